@@ -84,7 +84,7 @@ def run_group(hists, vars_, tag, schedule=None, switch=None):
     for t in ths:
         t.start()
     for t in ths:
-        t.join(timeout=120)
+        t.join(timeout=900)
     sys.setswitchinterval(old)
     out = []
     main_ctx = z3_ctx_id()
